@@ -32,9 +32,12 @@ type C06Case struct {
 	Items    []SelItem      `json:"items"`
 	Where    *sq.E          `json:"where,omitempty"`
 	Branches []UnionBranch  `json:"branches,omitempty"`
-	HasLimit bool           `json:"has_limit,omitempty"`
-	Limit    int            `json:"limit,omitempty"`
-	SQL      string         `json:"sql"`
+	// OrderBy (distinct mode): ORDER BY on the first selected column only - a key that does not determine the
+	// row, so equal rows need not end up next to each other; each distinct row still appears exactly once
+	OrderBy  string `json:"order_by,omitempty"`
+	HasLimit bool   `json:"has_limit,omitempty"`
+	Limit    int    `json:"limit,omitempty"`
+	SQL      string `json:"sql"`
 	// distinct-agg mode
 	AggCol string `json:"agg_col,omitempty"`
 	AggSum bool   `json:"agg_sum,omitempty"`
@@ -205,6 +208,10 @@ func genC06(t *rapid.T) any {
 		if c.Where != nil {
 			c.SQL += " WHERE " + sq.Render(c.Where, nil)
 		}
+		if len(c.Items) >= 2 && rapid.IntRange(0, 2).Draw(t, "orderby") == 0 {
+			c.OrderBy = names[0] + rapid.SampledFrom([]string{"", " DESC", " ASC"}).Draw(t, "orderdir")
+			c.SQL += " ORDER BY " + c.OrderBy
+		}
 		return c
 	}
 	nb := rapid.IntRange(2, 4).Draw(t, "nbranches")
@@ -364,6 +371,13 @@ func checkC06(c *C06Case) Result {
 		res.Execs++
 		if !out.OK() {
 			res.Violation = fmt.Sprintf("%s\n  expected %s\n  got %s", c.SQL, val.JSON(want), out.Describe())
+			return res
+		}
+		if c.OrderBy != "" {
+			res.Labels = append(res.Labels, "distinct-ordered-by-partial-key")
+			if !val.MultisetEqual(out.Rows, want) {
+				res.Violation = fmt.Sprintf("%s\n  projected rows %s\n  expected each of %s exactly once (in the requested order)\n  got %s", c.SQL, val.JSON(all), val.JSON(want), val.JSON(out.Rows))
+			}
 			return res
 		}
 		if d := diffRows(out.Rows, want); d != "" {
